@@ -47,8 +47,7 @@ def DecNum (t : Str) (x : Rat) : Prop :=
     x = (decVal i : Rat) + (decVal f : Rat) / ((10 ^ f.length : Nat) : Rat)
 
 /-- 10^k for an integer k -/
-def pow10 (k : Int) : Rat :=
-  if 0 ≤ k then ((10 ^ k.toNat : Nat) : Rat) else 1 / ((10 ^ (-k).toNat : Nat) : Rat)
+def pow10 (k : Int) : Rat := (10 : Rat) ^ k
 
 /-- optional sign -/
 def Sign (t : Str) (neg : Bool) : Prop := (t = [] ∧ neg = false) ∨ (t = ['+'] ∧ neg = false) ∨ (t = ['-'] ∧ neg = true)
